@@ -91,7 +91,20 @@ fn process_request_obj(request: &Request, dbs: &Arc<Databases>, client: &mut Cli
             &dbs,
             &client,
             &key,
-            &|_db| remove_key(&key, _db),
+            &|_db| {
+                let respose = remove_key(&key, _db);
+                if !dbs.is_primary() {
+                    // like set: a secondary hands the operation to the primary, which
+                    // replicates it to everyone
+                    if let Response::Ok {} = respose {
+                        send_message_to_primary(
+                            get_replicate_remove_message(_db.name.clone(), key.clone()),
+                            dbs,
+                        );
+                    }
+                }
+                respose
+            },
             PermissionKind::Remove,
         ),
 
